@@ -98,3 +98,15 @@ Check (C09_wf_preserved : forall s,
   (forall old v s' r, update s old v = Ok (s', r) -> wf_st s')).
 
 Check (C09_container_update_refuted : ~ C09_full_statement).
+
+Check (C09_locate_xref : forall pre xpos, locate_xref_offset (pre ++ startxref_tail xpos) = Ok xpos).
+
+Check (C09_load_table : forall read_classic s tr s' tr' c,
+  wf_st s -> save Serialize.ser s tr = Ok (s', tr', None) -> t_prev tr = None ->
+  lenN (refs s) < 999998 -> table_in_range (refs s') ->
+  Forall wf_bytes (t_id tr) -> fst (t_root tr) < 2 ^ 64 -> snd (t_root tr) < 2 ^ 64 ->
+  locate_start_offset (backend s') = Ok (start s) ->
+  exists s3 td, load Syntax.parse_obj read_classic (backend s') c = Ok (s3, td) /\
+    changes s3 = [] /\ backend s3 = backend s' /\ start s3 = start s /\
+    (forall i, i < lenN (refs s') -> nthN (refs s3) i = nthN (refs s') i) /\
+    dget td k_Size = Some (PInt (Z.of_N (lenN (refs s) + 2)))).
